@@ -148,9 +148,25 @@ Definition first_unhealthy (replicas : list (option pod)) (condemned : list pod)
 Definition same_pod (a : pod) (b : option pod) : bool :=
   match b with Some q => String.eqb (p_name a) (p_name q) | None => false end.
 
-Record loop_out := { lo_acts : list act; lo_st : status; lo_go : bool; lo_arr : list (option pod) }.
+(* one iteration of the replica loop on replicas[i] = p0: actions, status, whether the loop goes
+   on, and the entry left in replicas[i].  A failed / succeeded pod is deleted and its place taken
+   by a fresh pod, which (never being created) is created at once. *)
+Definition rstep (s : sset) (cur upd : rinfo) (mono : bool) (i : Z) (p0 : pod) (st : status)
+  : list act * status * bool * pod :=
+  if isFailed p0 || isSucceeded p0 then
+    let f := new_versioned_pod s cur upd i in
+    let st1 := if negb (isTerminating p0)
+               then st_add st (-1) (- b2z (rev_is p0 cur)) (- b2z (rev_is p0 upd))
+               else st_add st (-1) 0 0 in
+    ([ADelete p0; ACreate f], st_add st1 1 (b2z (rev_is f cur)) (b2z (rev_is f upd)), negb mono, f)
+  else if negb (isCreated p0) then
+    ([ACreate p0], st_add st 1 (b2z (rev_is p0 cur)) (b2z (rev_is p0 upd)), negb mono, p0)
+  else if isTerminating p0 && mono then ([], st, false, p0)
+  else if negb (isRunningAndReady p0) && mono then ([], st, false, p0)
+  else if identityMatches s p0 && storageMatches s p0 then ([], st, true, p0)
+  else ([AUpdate p0], st, true, p0).
 
-(* replica loop over replicas[i]; `i` is the index (= ordinal) of the head of l *)
+(* replica loop over replicas[i..]; `i` is the index (= ordinal) of the head of l *)
 Fixpoint rloop (s : sset) (cur upd : rinfo) (mono : bool) (i : Z) (l : list (option pod)) (st : status)
   : list act * status * bool * list (option pod) :=
   match l with
@@ -158,25 +174,10 @@ Fixpoint rloop (s : sset) (cur upd : rinfo) (mono : bool) (i : Z) (l : list (opt
   | None :: t =>
       let '(a, st', go, arr) := rloop s cur upd mono (i + 1) t st in (a, st', go, None :: arr)
   | Some p0 :: t =>
-      (* delete and recreate failed / succeeded pods *)
-      let '(a1, st1, p) :=
-        if isFailed p0 || isSucceeded p0 then
-          let st' := if negb (isTerminating p0)
-                     then st_add st (-1) (- b2z (rev_is p0 cur)) (- b2z (rev_is p0 upd))
-                     else st_add st (-1) 0 0 in
-          ([ADelete p0], st', new_versioned_pod s cur upd i)
-        else ([], st, p0) in
-      if negb (isCreated p) then
-        let st2 := st_add st1 1 (b2z (rev_is p cur)) (b2z (rev_is p upd)) in
-        if mono then (a1 ++ [ACreate p], st2, false, Some p :: t)
-        else let '(a, st', go, arr) := rloop s cur upd mono (i + 1) t st2 in
-             (a1 ++ ACreate p :: a, st', go, Some p :: arr)
-      else if isTerminating p && mono then (a1, st1, false, Some p :: t)
-      else if negb (isRunningAndReady p) && mono then (a1, st1, false, Some p :: t)
-      else if identityMatches s p && storageMatches s p then
+      let '(a1, st1, go1, p) := rstep s cur upd mono i p0 st in
+      if go1 then
         let '(a, st', go, arr) := rloop s cur upd mono (i + 1) t st1 in (a1 ++ a, st', go, Some p :: arr)
-      else
-        let '(a, st', go, arr) := rloop s cur upd mono (i + 1) t st1 in (a1 ++ AUpdate p :: a, st', go, Some p :: arr)
+      else (a1, st1, false, Some p :: t)
   end.
 
 (* condemned loop: l is the condemned list in DEScending ordinal order *)
